@@ -120,6 +120,36 @@ fn reset_all() {
     LOG.lock().unwrap().clear();
 }
 
+// ----------------------------------------------------------------------------------- heartbeat
+// Liveness deadlines are measured in wall time AND in progress of the runtime under test (a task
+// that ticks every 5 ms): on a starved machine no deadline expires.
+static HEART: AtomicU64 = AtomicU64::new(0);
+
+fn spawn_heartbeat() {
+    tokio::spawn(async {
+        loop {
+            tokio::time::sleep(Duration::from_millis(5)).await;
+            HEART.fetch_add(1, Ordering::SeqCst);
+        }
+    });
+}
+
+#[derive(Clone, Copy)]
+struct Deadline {
+    t0: Instant,
+    hb0: u64,
+    secs: u64,
+}
+impl Deadline {
+    fn new(secs: u64) -> Self {
+        Deadline { t0: Instant::now(), hb0: HEART.load(Ordering::SeqCst), secs }
+    }
+    fn passed(&self) -> bool {
+        self.t0.elapsed() >= Duration::from_secs(self.secs)
+            && HEART.load(Ordering::SeqCst).saturating_sub(self.hb0) * 5 >= self.secs * 1000
+    }
+}
+
 // --------------------------------------------------------------------------------------- paths
 
 fn src_ia() -> IsdAsn {
@@ -523,6 +553,7 @@ fn replay_one(sched: &Value, idle_ms: u64) -> ReplayOut {
             fast: AtomicBool::new(false),
             gate_first: AtomicBool::new(GATE_FIRST),
         });
+        spawn_heartbeat();
         let mut mgr: Option<Mgr> = Some(MultiPathManager::new(cfg, Fetcher(fst.clone()), PathStrategy::default()).expect("config"));
         let mut callers: BTreeMap<String, Caller> = BTreeMap::new();
         for (name, _) in callers_meta.iter() {
@@ -702,22 +733,22 @@ fn replay_one(sched: &Value, idle_ms: u64) -> ReplayOut {
                     if c.res.is_some() {
                         continue;
                     }
-                    let t0 = Instant::now();
-                    while c.res.is_none() && t0.elapsed() < Duration::from_secs(5) {
+                    let dl = Deadline::new(8);
+                    while c.res.is_none() && !dl.passed() {
                         tokio::time::sleep(Duration::from_millis(5)).await;
                         reap(c).await;
                     }
                     if c.res.is_none() {
-                        pv.push(json!({"key": "NoLostWakeup:not-released-after-lookup", "what": format!("caller {} waited on worker {} and is still pending 5 s after that worker's lookup finished", n, w)}));
+                        pv.push(json!({"key": "NoLostWakeup:not-released-after-lookup", "what": format!("caller {} waited on worker {} and is still pending 8 s after that worker's lookup finished", n, w)}));
                     }
                 }
             }
         }
         // ---- end of schedule: the manager was dropped and every lookup answered
         // release anything still pending (not expected: complete schedules answer all lookups)
-        let t_end = Instant::now();
+        let t_end = Deadline::new(8);
         let mut all_done = false;
-        while t_end.elapsed() < Duration::from_secs(5) {
+        while !t_end.passed() {
             // "lookups complete": answer lookups the schedule did not answer (timer-driven refetches)
             let pend: Vec<oneshot::Sender<Outcome>> = fst.pending.lock().unwrap().drain().map(|(_, tx)| tx).collect();
             for tx in pend {
@@ -745,7 +776,7 @@ fn replay_one(sched: &Value, idle_ms: u64) -> ReplayOut {
         obs.push(real);
         for c in callers.values() {
             if c.started.is_some() && c.res.is_none() {
-                pv.push(json!({"key": "NoLostWakeup:caller-never-released", "what": format!("caller {} still pending 5 s after every lookup was answered and the manager dropped", c.name)}));
+                pv.push(json!({"key": "NoLostWakeup:caller-never-released", "what": format!("caller {} still pending 8 s after every lookup was answered and the manager dropped", c.name)}));
             }
             if let Some(CallRes::Panic(m)) = &c.res {
                 pv.push(json!({"key": "Panic:caller", "what": format!("caller {} panicked: {}", c.name, m)}));
@@ -754,7 +785,7 @@ fn replay_one(sched: &Value, idle_ms: u64) -> ReplayOut {
         let spawned: Vec<u64> = log.iter().filter(|e| e.kind == "map_insert").map(|e| e.w).collect();
         for w in &spawned {
             if !log.iter().any(|e| e.kind == "worker_exit" && e.w == *w) {
-                pv.push(json!({"key": "DropStopsAll:worker-alive-after-drop", "what": format!("worker {} did not terminate within 5 s after the manager was dropped", w)}));
+                pv.push(json!({"key": "DropStopsAll:worker-alive-after-drop", "what": format!("worker {} did not terminate within 8 s after the manager was dropped", w)}));
             }
         }
         if mgr.is_none() {
@@ -764,7 +795,7 @@ fn replay_one(sched: &Value, idle_ms: u64) -> ReplayOut {
                 if !exited {
                     continue;
                 }
-                let p = tokio::time::timeout(Duration::from_secs(5), hd.active_path()).await;
+                let p = tokio::time::timeout(Duration::from_secs(20), hd.active_path()).await;
                 match p {
                     Err(_) => pv.push(json!({"key": "HandleAfterDrop:handle-hangs", "what": format!("handle of worker {} does not answer after drop", hd.id())})),
                     Ok(Some(_)) => pv.push(json!({"key": "HandleAfterDrop:handle-yields-path", "what": format!("handle of worker {} yields a path after the manager was dropped and the worker ended", hd.id())})),
@@ -915,6 +946,7 @@ fn fine_one(sched: &Value, alts: &[Value]) -> ReplayOut {
             fast: AtomicBool::new(false),
             gate_first: AtomicBool::new(GATE_FIRST),
         });
+        spawn_heartbeat();
         let mut mgr: Option<Mgr> = Some(MultiPathManager::new(cfg, Fetcher(fst.clone()), PathStrategy::default()).expect("config"));
         let mut callers: BTreeMap<String, Caller> = BTreeMap::new();
         let mut ctask: HashMap<String, tokio::task::Id> = HashMap::new();
@@ -997,7 +1029,7 @@ fn fine_one(sched: &Value, alts: &[Value]) -> ReplayOut {
                 let mut last;
                 loop {
                     last = observe!();
-                    if exp.contains(&last) || t0.elapsed() > Duration::from_secs(5) {
+                    if exp.contains(&last) || t0.elapsed() > Duration::from_secs(10) {
                         break;
                     }
                     tokio::time::sleep(Duration::from_micros(300)).await;
@@ -1105,8 +1137,8 @@ fn fine_one(sched: &Value, alts: &[Value]) -> ReplayOut {
             drop(m);
             hev("drop", "", 0, 0, "");
         }
-        let t_end = Instant::now();
-        while t_end.elapsed() < Duration::from_secs(5) {
+        let t_end = Deadline::new(8);
+        while !t_end.passed() {
             let pend: Vec<oneshot::Sender<Outcome>> = fst.pending.lock().unwrap().drain().map(|(_, tx)| tx).collect();
             for tx in pend {
                 let _ = tx.send(Outcome::Err);
@@ -1125,7 +1157,7 @@ fn fine_one(sched: &Value, alts: &[Value]) -> ReplayOut {
         let log = log_snapshot();
         for c in callers.values() {
             if c.started.is_some() && c.res.is_none() {
-                pv.push(json!({"key": "NoLostWakeup:caller-never-released", "what": format!("caller {} still pending 5 s after every lookup was answered and the manager dropped", c.name)}));
+                pv.push(json!({"key": "NoLostWakeup:caller-never-released", "what": format!("caller {} still pending 8 s after every lookup was answered and the manager dropped", c.name)}));
             }
             if let Some(CallRes::Panic(m)) = &c.res {
                 pv.push(json!({"key": "Panic:caller", "what": format!("caller {} panicked: {}", c.name, m)}));
@@ -1134,14 +1166,14 @@ fn fine_one(sched: &Value, alts: &[Value]) -> ReplayOut {
         let spawned: Vec<u64> = log.iter().filter(|e| e.kind == "map_insert").map(|e| e.w).collect();
         for w in &spawned {
             if !log.iter().any(|e| e.kind == "worker_exit" && e.w == *w) {
-                pv.push(json!({"key": "DropStopsAll:worker-alive-after-drop", "what": format!("worker {} did not terminate within 5 s after the manager was dropped", w)}));
+                pv.push(json!({"key": "DropStopsAll:worker-alive-after-drop", "what": format!("worker {} did not terminate within 8 s after the manager was dropped", w)}));
             }
         }
         for hd in verif_sync::handles() {
             if !log.iter().any(|e| e.kind == "worker_exit" && e.w == hd.id()) {
                 continue;
             }
-            match tokio::time::timeout(Duration::from_secs(5), hd.active_path()).await {
+            match tokio::time::timeout(Duration::from_secs(20), hd.active_path()).await {
                 Err(_) => pv.push(json!({"key": "HandleAfterDrop:handle-hangs", "what": format!("handle of worker {} does not answer after drop", hd.id())})),
                 Ok(Some(_)) => pv.push(json!({"key": "HandleAfterDrop:handle-yields-path", "what": format!("handle of worker {} yields a path after the manager was dropped and the worker ended", hd.id())})),
                 Ok(None) => {}
@@ -1276,6 +1308,7 @@ fn cmd_storm(evp: &str, resp: &str) {
                 }
             });
         }
+        spawn_heartbeat();
         let t_start = Instant::now();
         let mut rng = Rng::new(seed0 ^ 0x5707_4D5E);
         let mut pv: Vec<Value> = vec![];
@@ -1421,15 +1454,15 @@ fn cmd_storm(evp: &str, resp: &str) {
             if traced {
                 hev("drop", "", 0, 0, "");
                 // wait for the worker's exit events
-                let t0 = Instant::now();
+                let t0 = Deadline::new(8);
                 loop {
                     let log = log_snapshot();
                     let sp = log.iter().filter(|e| e.kind == "map_insert").count();
                     let ex = log.iter().filter(|e| e.kind == "worker_exit").count();
-                    if sp == ex || t0.elapsed() > Duration::from_secs(5) {
+                    if sp == ex || t0.passed() {
                         if sp != ex && pending == 0 {
                             let evs: Vec<String> = log.iter().map(|e| format!("{} {} w{} {}", e.seq, e.kind, e.w, e.note)).collect();
-                            pv.push(json!({"key": "DropStopsAll:worker-alive-after-drop", "pair": pair, "events": evs, "what": format!("storm pair {pair}: worker did not terminate within 5 s after the manager was dropped")}));
+                            pv.push(json!({"key": "DropStopsAll:worker-alive-after-drop", "pair": pair, "events": evs, "what": format!("storm pair {pair}: worker did not terminate within 8 s after the manager was dropped")}));
                         }
                         break;
                     }
@@ -1666,6 +1699,7 @@ fn record_one(seed: u64) -> RecOut {
             fast: AtomicBool::new(false),
             gate_first: AtomicBool::new(GATE_FIRST),
         });
+        spawn_heartbeat();
         let mut mgr: Option<Mgr> = Some(MultiPathManager::new(cfg, Fetcher(fst.clone()), PathStrategy::default()).expect("config"));
         let mut names: HashMap<tokio::task::Id, String> = HashMap::new();
         let mut callers: Vec<Caller> = vec![];
@@ -1800,7 +1834,7 @@ fn record_one(seed: u64) -> RecOut {
         }
         let _ = dropped_at;
         // ---- direct liveness monitor: every caller resolves, every worker ends, within 5 s
-        let t_end = Instant::now();
+        let t_end = Deadline::new(8);
         let mut pv: Vec<Value> = vec![];
         loop {
             for c in callers.iter_mut() {
@@ -1813,16 +1847,16 @@ fn record_one(seed: u64) -> RecOut {
             if done && spawned == exited {
                 break;
             }
-            if t_end.elapsed() > Duration::from_secs(5) {
+            if t_end.passed() {
                 for c in callers.iter() {
                     if c.res.is_none() {
-                        pv.push(json!({"key": "NoLostWakeup:caller-never-released", "what": format!("caller {} still pending 5 s after the last lookup completed and the manager was dropped", c.name)}));
+                        pv.push(json!({"key": "NoLostWakeup:caller-never-released", "what": format!("caller {} still pending 8 s after the last lookup completed and the manager was dropped", c.name)}));
                     }
                 }
                 let ws: Vec<u64> = log.iter().filter(|e| e.kind == "map_insert").map(|e| e.w).collect();
                 for w in ws {
                     if !log.iter().any(|e| e.kind == "worker_exit" && e.w == w) {
-                        pv.push(json!({"key": "DropStopsAll:worker-alive-after-drop", "what": format!("worker {} did not terminate within 5 s after the manager was dropped", w)}));
+                        pv.push(json!({"key": "DropStopsAll:worker-alive-after-drop", "what": format!("worker {} did not terminate within 8 s after the manager was dropped", w)}));
                     }
                 }
                 break;
@@ -1839,7 +1873,7 @@ fn record_one(seed: u64) -> RecOut {
             if !log.iter().any(|e| e.kind == "worker_exit" && e.w == hd.id()) {
                 continue;
             }
-            match tokio::time::timeout(Duration::from_secs(5), hd.active_path()).await {
+            match tokio::time::timeout(Duration::from_secs(20), hd.active_path()).await {
                 Err(_) => pv.push(json!({"key": "HandleAfterDrop:handle-hangs", "what": format!("handle of worker {} does not answer after drop", hd.id())})),
                 Ok(Some(_)) => pv.push(json!({"key": "HandleAfterDrop:handle-yields-path", "what": format!("handle of worker {} yields a path after the manager was dropped and the worker ended", hd.id())})),
                 Ok(None) => {}
